@@ -174,12 +174,12 @@ Qed.
 (* partial correctness by the loop invariant x^2 = a b:  for EVERY modulus, draw and input *)
 Lemma ts_loop_sound p a : forall fuel x b y r,
   cong p (x * x) (a * b) ->
-  ts_loop fuel p x b y r <> -1 -> ts_loop fuel p x b y r <> -2 ->
+  ts_loop fuel p x b y r <> -1 ->
   cong p (ts_loop fuel p x b y r * ts_loop fuel p x b y r) a.
 Proof.
-  induction fuel as [|f IH]; intros x b y r Hinv; cbn [ts_loop]; [intros _ H; contradiction H; reflexivity|].
+  induction fuel as [|f IH]; intros x b y r Hinv; cbn [ts_loop]; [intros H; contradiction H; reflexivity|].
   destruct (Z.eqb_spec b 1) as [->|Hb].
-  - intros _ _. rewrite Hinv. replace (a * 1) with a by ring. reflexivity.
+  - intros _. rewrite Hinv. replace (a * 1) with a by ring. reflexivity.
   - destruct (b2k_loop (Z.to_nat r) b p 0 =? r); [intros H; contradiction H; reflexivity|].
     apply IH. rewrite !cong_rem.
     set (t := powmod y (2 ^ (r - b2k_loop (Z.to_nat r) b p 0 - 1)) p).
@@ -187,14 +187,14 @@ Proof.
     rewrite Hinv. apply eq_subrelation; [typeclasses eauto|ring].
 Qed.
 Definition Tonelli_sound_stmt := forall p a draws x,
-  tonelli a p draws = Some x -> x <> -1 -> x <> -2 -> cong p (x * x) a.
+  tonelli a p draws = Some x -> x <> -1 -> cong p (x * x) a.
 Lemma tonelli_sound : Tonelli_sound_stmt.
 Proof.
   intros p a draws x. unfold tonelli.
   destruct (split2 _ (p - 1) 0) as [q e].
   destruct (pick _ draws) as [g|]; [|discriminate].
   match goal with |- Some ?t = Some x -> _ => intros Hx; assert (Hx' : t = x) by congruence; clear Hx end.
-  intros Hm1 Hm2. rewrite <- Hx' in *. apply ts_loop_sound; [|exact Hm1|exact Hm2].
+  intros Hm1. rewrite <- Hx' in *. apply ts_loop_sound; [|exact Hm1].
   rewrite !cong_rem. apply eq_subrelation; [typeclasses eauto|ring].
 Qed.
 
@@ -202,14 +202,14 @@ Qed.
 Definition Sqrootmodprime_sound_stmt := forall p a draws x, prime p ->
   (p mod 8 = 5 -> cong p (2 ^ ((p - 1) / 2)) (-1)) ->
   (p mod 16 = 9 -> cong p (2 ^ ((p - 1) / 2)) 1 /\ Forall (fun d => 0 < d < p /\ cong p (d ^ (p - 1)) 1) draws) ->
-  sqrootmodprime a p draws = Some x -> x <> -1 -> x <> -2 -> cong p (x * x) a.
+  sqrootmodprime a p draws = Some x -> x <> -1 -> cong p (x * x) a.
 Lemma sqrootmodprime_sound : Sqrootmodprime_sound_stmt.
 Proof.
   intros p a draws x Hp H5 H9. assert (Hp1 : 1 < p) by (destruct Hp; lia).
   unfold sqrootmodprime. set (amp := a mod p).
   assert (Hamp : cong p amp a) by apply cong_mod.
   destruct ((amp =? 0) || (amp =? 1)) eqn:E01.
-  - intros [= <-] _ _. apply orb_true_iff in E01. rewrite <- Hamp.
+  - intros [= <-] _. apply orb_true_iff in E01. rewrite <- Hamp.
     destruct E01 as [E|E]; apply Z.eqb_eq in E; rewrite E; reflexivity.
   - apply orb_false_iff in E01. destruct E01 as [E0 E1]. apply Z.eqb_neq in E0.
     destruct (Z.eqb_spec (legendre amp p) (-1)) as [El|El]; [intros [= <-] H; contradiction H; reflexivity|].
@@ -218,14 +218,14 @@ Proof.
     assert (Hres : cong p (amp ^ ((p - 1) / 2)) 1).
     { apply legendre_residue; [lia| |exact El]. subst amp. rewrite Z.mod_mod by lia. exact E0. }
     destruct (Z.eqb_spec (p mod 4) 3) as [E4|E4].
-    { intros [= <-] _ _. rewrite <- Hamp. apply sqrt_3mod4_correct; assumption. }
+    { intros [= <-] _. rewrite <- Hamp. apply sqrt_3mod4_correct; assumption. }
     destruct (Z.eqb_spec (p mod 8) 5) as [E8|E8].
-    { intros Hx _ _. rewrite <- Hamp. pose proof (sqrt_atkin_correct p amp Hp E8 Hres (H5 E8)) as Hat.
+    { intros Hx _. rewrite <- Hamp. pose proof (sqrt_atkin_correct p amp Hp E8 Hres (H5 E8)) as Hat.
       unfold atkin in Hat. destruct (powmod amp ((p - 1) / 4) p =? 1); injection Hx as <-; exact Hat. }
     destruct (Z.eqb_spec (p mod 16) 9) as [E16|E16].
-    { intros Hx _ _. rewrite <- Hamp. destruct (H9 E16) as [H2 Hdr].
+    { intros Hx _. rewrite <- Hamp. destruct (H9 E16) as [H2 Hdr].
       exact (sqrt_mueller_correct p amp draws x Hp E16 Hres H2 Hdr Hx). }
-    intros Hx Hm1 Hm2. rewrite <- Hamp. exact (tonelli_sound p amp draws x Hx Hm1 Hm2).
+    intros Hx Hm1. rewrite <- Hamp. exact (tonelli_sound p amp draws x Hx Hm1).
 Qed.
 
 (* the hypotheses of the branch theorems are satisfiable *)
